@@ -9,7 +9,7 @@ from rv.props import common as C
 from rv import oracles as O, gen
 
 LEVEL = "exploration"
-RULE = ("first-fit, best-fit, FFD, BFD in every arrival order (random, ascending, descending, big-small alternation) on random, hardpack, repeat, threshold, zeros, equal classes "
+RULE = ("bounded-exhaustive: every arrival sequence of <= 4 (thorough 5) items over 0..C, C in {4,6,7}, and every multiset of <= 6 (7) items for the decreasing variants (completion in grid_exhaustive_complete_shards); then first-fit, best-fit, FFD, BFD in every arrival order (random, ascending, descending, big-small alternation) on random, hardpack, repeat, threshold, zeros, equal classes "
         "(ints and dyadic fractions), the FFD non-monotonicity examples, and planted perfect packings up to 200 items; non-trivial = >= 3 bins; distinct on (algorithm, binsize, value sequence)")
 ASSUMPTIONS = ["OPT from O2 for n <= 12, from the planted construction otherwise; instances with neither only get the any-fit invariant"]
 FLOORS = {"quick": {"distinct_nontrivial": 20000, "with_opt": 5000}, "thorough": {"distinct_nontrivial": 100000, "with_opt": 25000}}
@@ -21,7 +21,7 @@ NONMONO = [(60, [44, 24, 24, 22, 21, 17, 8, 8, 6, 6]), (61, [44, 24, 24, 22, 21,
 def plan(tier, seed):
     n = 16 if tier == "quick" else 64
     b = 25 if tier == "quick" else 80
-    return [{"seed": seed * 1000 + i, "shard": i, "budget_s": b, "max_cases": 10 ** 7, "watchdog_s": b * 5 + 120} for i in range(n)]
+    return [{"seed": seed * 1000 + i, "shard": i, "nshards": n, "budget_s": b, "max_cases": 10 ** 7, "watchdog_s": b * 5 + 120} for i in range(n)]
 
 
 def judge(case, ctx):
@@ -88,8 +88,31 @@ def draw(rng, alg):
     return case
 
 
+def exhaustive_cases(spec):
+    import itertools
+    big = spec.get("tier") == "thorough"
+    for Cs in (4, 6, 7):
+        for n in range(1, 6 if big else 5):
+            for seq in itertools.product(range(0, Cs + 1), repeat=n):
+                for alg in ("ff", "bf"):
+                    yield {"kind": "pack", "alg": alg, "C": Cs, "values": list(seq), "cls": "grid_exhaustive", "order": "all", "pres": "list", "pres_seed": 0}
+        for ms in C.multisets(range(0, Cs + 1), 7 if big else 6):
+            for alg in ("ffd", "bfd"):
+                yield {"kind": "pack", "alg": alg, "C": Cs, "values": list(ms), "cls": "grid_exhaustive", "order": "sorted", "pres": "list", "pres_seed": 0}
+
+
 def run_shard(spec, rng, ctx):
     end = C.budget(spec)
+    # bounded-exhaustive small scope: every arrival SEQUENCE of <= 4 (thorough 5) items over 0..C for C in {4,6,7} (online fits), every multiset of <= 6 (7) items (decreasing fits)
+    grid_end = C.now() + 0.4 * float(spec.get("budget_s", 60))
+    complete = True
+    for case in C.sharded(exhaustive_cases(spec), spec):
+        if C.now() > grid_end:
+            complete = False
+            break
+        judge(case, ctx)
+        ctx.counters["grid_exhaustive_cases"] += 1
+    ctx.counters["grid_exhaustive_complete_shards"] += int(complete)
     i = 0
     while i < spec["max_cases"] and C.now() < end:
         judge(draw(rng, ALGS[i % 4]), ctx)
